@@ -51,9 +51,14 @@ def gen_case(r, tier):
     elif kind == 'owner_labels':
         ns = W['workloads'][0]['ns']
         own = {'name': 'shared-owner', 'kind': 'ReplicaSet'}
-        W['workloads'].append({'kind': 'Pod', 'ns': ns, 'name': 'px1', 'labels': {'app': 'a'}, 'ports': [], 'replicas': None, 'owner': own})
-        W['workloads'].append({'kind': 'Pod', 'ns': ns, 'name': 'px2', 'labels': r.choice([{'app': 'b'}, {'app': 'a', 'tier': 'c'}, {}]),
-                               'ports': [], 'replicas': None, 'owner': own})
+        l1, l2 = r.choice([({'app': 'a'}, {'app': 'b'}), ({'app': 'a'}, {'app': 'a', 'tier': 'c'}), ({'app': 'a'}, {}),
+                           ({'app': 'a'}, {'app': 'a', 'canary': ''}), ({'app': 'a', 'canary': ''}, {'app': 'a'}), ({'app': ''}, {}),
+                           ({'app': 'a', 'tier': ''}, {'app': 'a', 'env': ''})])
+        pods = [{'kind': 'Pod', 'ns': ns, 'name': 'px1', 'labels': l1, 'ports': [], 'replicas': None, 'owner': own},
+                {'kind': 'Pod', 'ns': ns, 'name': 'px2', 'labels': l2, 'ports': [], 'replicas': None, 'owner': own}]
+        if r.random() < 0.4:   # a third, consistent pod so that the inconsistent pair is not the only pair
+            pods.insert(r.randrange(3), {'kind': 'Pod', 'ns': ns, 'name': 'px0', 'labels': dict(l1), 'ports': [], 'replicas': None, 'owner': own})
+        W['workloads'].extend(pods)
     order = r.choice(['sorted', 'reversed', 'random'])
     return W, kind, order, n
 
